@@ -127,7 +127,7 @@ def gen_cases(tier, seed):
                     cases.append(s)
     from .. import windows
 
-    for sp in windows.cases(rng, 'cancel', 60 if quick else 2500, core_reps=1 if quick else 4, nths=(0, 1) if quick else (0, 1, 2)):
+    for sp in windows.cases(rng, 'cancel', 60 if quick else 2500, core_reps=1 if quick else 3, nths=(0, 1) if quick else (0, 1, 2, 3), all_lines=not quick):
         sp['family'] = 'window'
         sp['entry'] = 'future.cancel'
         cases.append(sp)
